@@ -20,12 +20,19 @@ def Admits (u : UseA) (r l : Str) : Prop :=
   UItem.ren l r ∈ u.items ∨
     (l = r ∧ (if u.only then UItem.plain r ∈ u.items else ∀ l', UItem.ren l' r ∉ u.items))
 
+/-- The standard's accessibility of a declared entity (F2018 8.5.2, 8.6.1): the PUBLIC or PRIVATE
+    attribute it is given (in its declaration or by an access statement, in whatever order),
+    otherwise the default accessibility of the module.  PROTECTED (8.5.15) restricts where the
+    entity may be *defined* and says nothing about whether it is accessible. -/
+def declAccessible (m : Scope) (d : Decl) : Bool :=
+  if Perm.pub ∈ d.accs then true else if Perm.priv ∈ d.accs then false else m.defPub
+
 /-- `Exports g k m l e`: module `m` of project `g` makes entity `e` (of kind `k`)
     accessible to its users under the identifier `l`. -/
 inductive Exports (g : List Scope) (k : Nat) : Scope → Str → Ent → Prop
-  /-- a declaration whose accessibility is not private -/
+  /-- a declaration whose accessibility is public -/
   | decl {m : Scope} {d : Decl} : m ∈ g → m.isMod = true → d ∈ m.decls → d.kind = k →
-      declPerm m d ≠ .priv → Exports g k m d.name (m.name, d.name)
+      declAccessible m d = true → Exports g k m d.name (m.name, d.name)
   /-- a use-associated entity is re-exported unless the identifier is private:
       declared private by a statement, or default-private and not declared public -/
   | reexp {m n : Scope} {u : UseA} {r l : Str} {e : Ent} : m ∈ g → m.isMod = true → u ∈ m.uses →
@@ -84,6 +91,24 @@ def NoRepeatedRemote (g : List Scope) : Prop :=
     (default-private module, name not also declared public) -/
 def NoEffectivePrivate (g : List Scope) : Prop :=
   ∀ m ∈ g, ∀ l ∈ m.privNames, m.defPub = false ∧ l ∉ m.pubNames
+
+/-- Fortran's constraint that an entity is not given both PUBLIC and PRIVATE -/
+def LegalAccess (g : List Scope) : Prop :=
+  ∀ m ∈ g, ∀ d ∈ m.decls, ¬ (Perm.pub ∈ d.accs ∧ Perm.priv ∈ d.accs)
+
+/-- defect class `C06-protected-private-exported`: PROTECTED is the access keyword FORD meets last
+    for an entity whose accessibility is private (`integer, protected :: x` under a bare `private`
+    statement, `integer, private, protected :: x`): the one permission slot then reads
+    "protected", which `_cleanup` exports -/
+def ProtectedOverPrivate (m : Scope) (d : Decl) : Prop :=
+  d.accs.getLast? = some Perm.prot ∧ declAccessible m d = false
+
+instance (m : Scope) (d : Decl) : Decidable (ProtectedOverPrivate m d) := by
+  unfold ProtectedOverPrivate; infer_instance
+
+/-- the defect class is absent from the project -/
+def NoProtectedOverPrivate (g : List Scope) : Prop :=
+  ∀ m ∈ g, ∀ d ∈ m.decls, ¬ ProtectedOverPrivate m d
 
 /-- Fortran's rule that a use-associated identifier is not redeclared locally -/
 def NoShadow (g : List Scope) (k : Nat) : Prop :=
